@@ -87,9 +87,7 @@ def solo(inner, case):
         try:
             os.close(r)
             o1 = run_case(inner, case)
-            d1 = h64(repr(o1.outcome))
-            o2 = run_case(inner, copy.deepcopy(case))
-            res = (not o1.disc, d1 if d1 == h64(repr(o2.outcome)) else None)
+            res = (not o1.disc, h64(repr(o1.outcome)))
             with os.fdopen(w, "wb") as f:
                 f.write(pickle.dumps(res))
         except BaseException:  # noqa
@@ -125,6 +123,8 @@ class CrossTalk(SubCheck):
             clean, digest = solo(inner, c)
             if not clean:
                 continue        # not clean on its own: the wrapped sub-check reports it (or it is a known finding)
+            if solo(inner, copy.deepcopy(c))[1] != digest:
+                digest = None   # the digest is not a function of the case (two fresh processes disagree): not compared
             self.sel.append(i if i != "x" else -1 - len(self.explicit))
             if i == "x":
                 self.explicit.append(c)
